@@ -13,6 +13,11 @@
 //	            (an evaluation never changes later answers);
 //	equals-nil  the untyped nil pattern on every y of a nilable kind: accepts exactly the nils;
 //	any         Any() accepts every y;
+//	mutate      (pointer, slice and map kinds) every triple (x,a,b): a fresh container holding a's
+//	            contents is evaluated by Equals(x), In(x) and the ToExpr expression, rewritten in
+//	            place to b's contents and evaluated again by the same expressions: the answers
+//	            are those for a and then those for b (pointers by pointee, composites deeply —
+//	            an earlier evaluation never fixes a later answer);
 //	in          every subset S of the domain with |S| <= 3 (4 in the thorough tier) and every y: In(S...) accepts y iff
 //	            some Equals(s), s in S, accepts y (reference: the library's own Equals answers).
 //
@@ -32,7 +37,7 @@ import (
 // Case is the replayable artefact.
 type Case struct {
 	Kind    string   `json:"kind"`
-	Op      string   `json:"op"` // equals | equals-nil | any | in
+	Op      string   `json:"op"` // equals | equals-nil | any | mutate | in
 	Pattern []string `json:"pattern"`
 	Arg     string   `json:"arg"`
 }
@@ -89,6 +94,75 @@ func (c *checker) argValue(y val) reflect.Value {
 	}
 	c.fn.Call([]reflect.Value{in})
 	return c.got
+}
+
+// container builds a fresh pointer, slice or map holding a's contents and returns it with a
+// function that rewrites it in place to b's contents; ok is false where that is impossible
+// (other kinds, nil values, slices of different length).
+func (c *checker) container(a, b val) (box reflect.Value, rewrite func(), ok bool) {
+	if a.v == nil || b.v == nil || isNilValue(a.v) || isNilValue(b.v) {
+		return
+	}
+	av, bv := reflect.ValueOf(a.v), reflect.ValueOf(b.v)
+	switch c.k.typ.Kind() {
+	case reflect.Ptr:
+		box = reflect.New(c.k.typ.Elem())
+		box.Elem().Set(av.Elem())
+		return box, func() { box.Elem().Set(bv.Elem()) }, true
+	case reflect.Slice:
+		if av.Len() != bv.Len() || av.Len() == 0 {
+			return
+		}
+		box = reflect.MakeSlice(c.k.typ, av.Len(), av.Len())
+		reflect.Copy(box, av)
+		return box, func() { reflect.Copy(box, bv) }, true
+	case reflect.Map:
+		box = reflect.MakeMap(c.k.typ)
+		for _, key := range av.MapKeys() {
+			box.SetMapIndex(key, av.MapIndex(key))
+		}
+		return box, func() {
+			for _, key := range box.MapKeys() {
+				box.SetMapIndex(key, reflect.Value{})
+			}
+			for _, key := range bv.MapKeys() {
+				box.SetMapIndex(key, bv.MapIndex(key))
+			}
+		}, true
+	}
+	return
+}
+
+// evalMutate resolves e once, evaluates it on the container, rewrites the container in place and
+// evaluates the same expression on the same container again.
+func (c *checker) evalMutate(mk func() (arg.Expr, error), a, b val) (before, after ans) {
+	msg, panicked := vk.Try(func() {
+		box, rewrite, _ := c.container(a, b)
+		c.ops++
+		e, err := mk()
+		if err != nil {
+			before.fail = "resolve-error: " + err.Error()
+			after.fail = before.fail
+			return
+		}
+		get := func(into *ans) {
+			c.ops++
+			c.fn.Call([]reflect.Value{box})
+			r, err := e.Eval([]reflect.Value{c.got}, false)
+			if err != nil {
+				into.fail = "eval-error: " + err.Error()
+			}
+			into.r = r
+		}
+		get(&before)
+		rewrite()
+		get(&after)
+	})
+	if panicked {
+		before.fail = "panic: " + vk.Short(msg, 100)
+		after.fail = before.fail
+	}
+	return
 }
 
 // evalTwice resolves e against the kind and evaluates it twice on y.
@@ -276,6 +350,44 @@ func (c *checker) run(cs Case) (res result) {
 		case a.r != union:
 			return bad("in!=union", "%s = %v, but the union of Equals(s) on %s over its members is %v", what, a.r, y.name, union)
 		}
+	case "mutate":
+		xi, ai := c.index(cs.Pattern[0]), c.index(cs.Pattern[1])
+		x, a, b := k.dom[xi], k.dom[ai], y
+		wa, wb := c.eqAns[xi][ai], c.eqAns[xi][yi]
+		if wa.fail != "" || wb.fail != "" {
+			res.judged = false // reported by the equals case of that pair
+			return
+		}
+		resolve := func(e arg.Expr) (arg.Expr, error) { return e, e.Resolve([]reflect.Type{k.typ}, false) }
+		forms := []struct {
+			name string
+			mk   func() (arg.Expr, error)
+		}{
+			{"Equals(" + x.name + ")", func() (arg.Expr, error) { return resolve(arg.Equals(x.v)) }},
+			{"In(" + x.name + ")", func() (arg.Expr, error) { return resolve(arg.In(x.v)) }},
+			{"ToExpr(" + x.name + ")", func() (arg.Expr, error) {
+				es, err := arg.ToExpr([]interface{}{x.v}, []reflect.Type{k.typ}, false)
+				if err != nil {
+					return nil, err
+				}
+				return es[0], nil
+			}},
+		}
+		for _, f := range forms {
+			before, after := c.evalMutate(f.mk, a, b)
+			res.accepted = res.accepted || (after.fail == "" && after.r)
+			what := fmt.Sprintf("%s on one container holding %s, then rewritten in place to %s", f.name, a.name, b.name)
+			switch {
+			case before.fail != "":
+				return bad(failClass(before.fail), "%s: %s", what, before.fail)
+			case after.fail != "":
+				return bad(failClass(after.fail), "%s: %s", what, after.fail)
+			case before.r != wa.r:
+				return bad("container-differs", "%s: first answer %v, but Equals(%s) on %s is %v", what, before.r, x.name, a.name, wa.r)
+			case after.r != wb.r:
+				return bad("stale-after-mutation", "%s: answers %v then %v, but Equals(%s) on %s is %v and on %s is %v", what, before.r, after.r, x.name, a.name, wa.r, b.name, wb.r)
+			}
+		}
 	default:
 		vk.Fatalf("unknown op %q", cs.Op)
 	}
@@ -320,6 +432,19 @@ func (c *checker) cases(op string, yield func(Case) bool) {
 		for _, y := range names {
 			if !yield(Case{k.name, op, nil, y}) {
 				return
+			}
+		}
+	case "mutate":
+		for _, x := range names {
+			for ai, a := range names {
+				for bi, b := range names {
+					if _, _, ok := c.container(k.dom[ai], k.dom[bi]); !ok {
+						continue
+					}
+					if !yield(Case{k.name, op, []string{x, a}, b}) {
+						return
+					}
+				}
 			}
 		}
 	case "in":
@@ -377,7 +502,7 @@ func (c *checker) cases(op string, yield func(Case) bool) {
 	}
 }
 
-var ops = []string{"equals", "equals-nil", "any", "in"}
+var ops = []string{"equals", "equals-nil", "any", "mutate", "in"}
 
 func key(cs Case, class string) string {
 	return fmt.Sprintf("kind=%s %s pattern=[%s] arg=%s class=%s", cs.Kind, cs.Op, strings.Join(cs.Pattern, ","), cs.Arg, class)
